@@ -342,3 +342,179 @@ def enumerate_shapes(b: Binder, t: pydsdl.CompositeType) -> typing.List[Shape]:
 
     walk(list(shape_locations(b, t)), Shape())
     return out
+
+
+# ------------------------------------------------------------------------------------------------------------------
+# Dec
+# ------------------------------------------------------------------------------------------------------------------
+
+
+def _addo(off: typing.Any, n: typing.Any) -> typing.Any:
+    if isinstance(off, int) and isinstance(n, int):
+        return off + n
+    return ec._fold(app("+", str(off), str(n)))
+
+
+def _align(off: typing.Any, a: int) -> typing.Any:
+    if a <= 1:
+        return off
+    if isinstance(off, int):
+        return off + (-off) % a
+    if a == 8:
+        q, r = ec.divmod8(str(off))
+        if r is not None:
+            return off if r == 0 else ec._fold(app("+", str(off), str(8 - r)))
+    return ec._fold(app("*", app("div", app("+", off, str(a - 1)), str(a)), str(a)))
+
+
+class Decoded:
+    """result of the specification decoder on one path"""
+
+    def __init__(self) -> None:
+        self.values: typing.List[typing.Tuple[Obj, CT, int, typing.Tuple[str, str]]] = []  # (leaf, leaf C type, element index, (kind, term))
+        self.bits: typing.List[typing.Tuple[Obj, CT, int, str]] = []  # bit-packed booleans: (leaf, type, bit index, Bool term)
+        self.error: typing.Optional[int] = None
+        self.end: typing.Any = 0
+        self.dtypes: typing.Dict[typing.Any, typing.Any] = {}  # (leaf path, element index) -> DSDL primitive type
+
+
+class WireDecoder:
+    """Dec_T(bytes, n): walks the type, reading through zero-extending reads of `mem` limited to `limit` bytes
+    (absolute byte index in the buffer's region); branches (through ex.branch / small_split) exactly where the
+    specification makes a case distinction: array length validity and value, union tag, delimiter header validity."""
+
+    def __init__(self, ex: ec.Exec, binder: Binder, mem: Mem, zx: typing.Callable[[Mem, str, str, str, int], str]):
+        self.ex, self.b, self.mem, self.zx = ex, binder, mem, zx
+
+    def rd(self, limit: str, base: typing.Any, off: typing.Any, n: int, width: int) -> str:
+        abs_off = str(_addo(base, off))
+        return self.zx(self.mem, limit, abs_off, str(n), width)
+
+    def decode(self, t: pydsdl.CompositeType, o: Obj, base_bit: typing.Any, limit: str) -> Decoded:
+        d = Decoded()
+        d.end = self._composite(t, o, base_bit, 0, limit, d)
+        return d
+
+    def _composite(self, t, o: Obj, base, off, limit: str, d: Decoded):
+        inner = t.inner_type if isinstance(t, pydsdl.DelimitedType) else t
+        members = self.b.members(t)
+        if isinstance(inner, pydsdl.UnionType):
+            tt = inner.tag_field_type
+            w = 8 if tt.bit_length <= 8 else (16 if tt.bit_length <= 16 else 32)
+            raw = self.rd(limit, base, off, tt.bit_length, w)
+            off = _addo(off, tt.bit_length)
+            tagv = self.ex.name_term(f"(bv2nat {raw})", "Int", "tag")
+            if self.ex.branch(app(">=", tagv, str(len(members)))):
+                d.error = ERR_BAD_UNION_TAG
+                return off
+            k = self.ex.small_split(tagv, max(1, len(members) - 1), known_range=True)
+            if k is None:
+                raise ec.COutOfSubset("union tag not enumerable")
+            d.values.append((o.sub("_tag_"), CT("int", 8, False), 0, ("bits", bvlit(k, 8))))
+            f, mpath, mct = members[k]
+            off = _align(off, f.data_type.alignment_requirement)
+            off = self._field(f.data_type, o.sub(*mpath), mct, base, off, limit, d)
+            if d.error is not None:
+                return off
+        else:
+            mi = iter(members)
+            for f in inner.fields:
+                off = _align(off, f.data_type.alignment_requirement)
+                if isinstance(f, pydsdl.PaddingField):
+                    off = _addo(off, f.data_type.bit_length)
+                    continue
+                ff, mpath, mct = next(mi)
+                off = self._field(f.data_type, o.sub(*mpath), mct, base, off, limit, d)
+                if d.error is not None:
+                    return off
+        return _align(off, 8)
+
+    def _prim(self, dt: pydsdl.PrimitiveType, ct: CT, limit: str, base, off) -> typing.Tuple[str, str]:
+        n = dt.bit_length
+        el = ct.elem if ct.kind == "array" else ct
+        if isinstance(dt, pydsdl.BooleanType):
+            raw = self.rd(limit, base, off, 1, 8)
+            return ("bits", raw)  # 0 or 1
+        if isinstance(dt, pydsdl.UnsignedIntegerType):
+            w = el.width
+            return ("bits", self.rd(limit, base, off, n, w))
+        if isinstance(dt, pydsdl.SignedIntegerType):
+            w = el.width
+            raw = self.rd(limit, base, off, n, w)
+            amt = bvlit(w - n, w)
+            return ("bits", raw if n == w else f"(bvashr (bvshl {raw} {amt}) {amt})")
+        if isinstance(dt, pydsdl.FloatType):
+            if n == 16:
+                return ("f16", self.rd(limit, base, off, 16, 16))
+            return ("bits", self.rd(limit, base, off, n, n))
+        raise ec.COutOfSubset(f"primitive {dt}")
+
+    def _field(self, dt, o: Obj, mct: CT, base, off, limit: str, d: Decoded):
+        if isinstance(dt, pydsdl.PrimitiveType):
+            d.values.append((o, mct, 0, self._prim(dt, mct, limit, base, off)))
+            d.dtypes[(o.path, 0)] = dt
+            return _addo(off, dt.bit_length)
+        if isinstance(dt, pydsdl.ArrayType):
+            return self._array(dt, o, mct, base, off, limit, d)
+        if isinstance(dt, pydsdl.CompositeType):
+            return self._nested(dt, o, base, off, limit, d)
+        raise ec.COutOfSubset(f"field type {dt}")
+
+    def _nested(self, dt, o: Obj, base, off, limit: str, d: Decoded):
+        if isinstance(dt, pydsdl.DelimitedType):
+            raw = self.rd(limit, base, off, 32, 32)
+            off = _addo(off, 32)
+            dh = self.ex.name_term(f"(bv2nat {raw})", "Int", "dh")
+            pos_bytes = app("div", str(_addo(base, off)), "8")
+            remaining = Ite(app(">=", limit, pos_bytes), app("-", limit, pos_bytes), "0")
+            if self.ex.branch(app(">", dh, remaining)):
+                d.error = ERR_BAD_DELIMITER
+                return off
+            sub_limit = self.ex.name_term(app("+", pos_bytes, dh), "Int", "sublimit")
+            self._composite(dt, o, base, off, sub_limit, d)
+            if d.error is not None:
+                return off
+            return ec._fold(app("+", str(off), app("*", "8", dh)))
+        return self._composite(dt, o, base, off, limit, d)
+
+    def _array(self, dt, o: Obj, mct: CT, base, off, limit: str, d: Decoded):
+        et = dt.element_type
+        if isinstance(dt, pydsdl.VariableLengthArrayType):
+            lt = dt.length_field_type
+            w = 8 if lt.bit_length <= 8 else (16 if lt.bit_length <= 16 else (32 if lt.bit_length <= 32 else 64))
+            raw = self.rd(limit, base, off, lt.bit_length, w)
+            off = _addo(off, lt.bit_length)
+            cntv = self.ex.name_term(f"(bv2nat {raw})", "Int", "count")
+            if self.ex.branch(app(">", cntv, str(dt.capacity))):
+                d.error = ERR_BAD_ARRAY_LENGTH
+                return off
+            n = self.ex.small_split(cntv, max(1, dt.capacity), known_range=True)
+            if n is None:
+                raise ec.COutOfSubset("array length not enumerable")
+            rec = self.b.types.records[mct.name]
+            el_name, el_ct = rec["fields"][0]
+            cnt_name, cnt_ct = rec["fields"][1]
+            d.values.append((o.sub(cnt_name), cnt_ct, 0, ("int", str(n))))
+            elems_o = o.sub(el_name)
+        else:
+            n = dt.capacity
+            el_ct = mct
+            elems_o = o
+        off = _align(off, et.alignment_requirement)
+        for i in range(n):
+            off = _align(off, et.alignment_requirement)
+            if isinstance(et, pydsdl.BooleanType):
+                raw = self.rd(limit, base, off, 1, 8)
+                d.bits.append((elems_o, el_ct, i, Eq(raw, "#x01")))
+                off = _addo(off, 1)
+            elif isinstance(et, pydsdl.PrimitiveType):
+                d.values.append((elems_o, el_ct, i, self._prim(et, el_ct, limit, base, off)))
+                d.dtypes[(elems_o.path, i)] = et
+                off = _addo(off, et.bit_length)
+            elif isinstance(et, pydsdl.CompositeType):
+                off = self._nested(et, elems_o.sub(str(i)), base, off, limit, d)
+                if d.error is not None:
+                    return off
+            else:
+                raise ec.COutOfSubset(f"array element {et}")
+        return off
